@@ -384,7 +384,9 @@ class ResolvedI(Interface):
 class ElementI(Interface):
     """an element of an accumulated list (StringSourceSdv, ElementSdv, StringTransformerSdv, validator resolver)"""
     attrs = {'ident': Int, 'references': Any_}
-    methods = {'resolve': Method(returns=Iface(ResolvedI), ensures=lambda self, symbols, result: result.ident == self.ident)}
+    methods = {'resolve': Method(returns=Iface(ResolvedI), ensures=lambda self, symbols, result: result.ident == self.ident),
+               # validator resolvers are callables: vr(symbols)
+               '__call__': Method(returns=Iface(ResolvedI), ensures=lambda self, symbols, result: result.ident == self.ident)}
 
 
 ELEMENTS = ListOf(Iface(ElementI))
@@ -488,3 +490,299 @@ for _m, _field in (('resolve_stdin', 'stdin'), ('resolve_transformations', 'tran
                ensures={'element-wise, in order': lambda self, field, result, j:
                is_resolution_of(result, getattr(self, field), j)},
                raises_only=())
+
+
+# ------------------------------------------------------------------------------ program SDVs: the induction over symbol chains
+# Denotation (at SDV level) of a program under a symbol table:  g(p) = (driver, argument elements, stdin,
+# transformations), each list in DEFINITION ORDER.
+#   ProgramSdvForCommand(command, acc)       : g = (command.driver, command.arguments ++ acc.arguments, acc.stdin, acc.transformations)
+#   ProgramSdvForSymbolReference(name, acc)  : g = g(symbols[name]) (+) acc            -- the referenced program FIRST
+# Proved of both classes:  (a) p.new_accumulated(add) denotes g(p) (+) add;   (b) p.resolve(symbols) is the
+# element-wise, in-order resolution of g(p).  For the referenced program of a symbol reference (a) and (b) are the
+# induction hypothesis (interface AnyProgramSdvI); the induction is on the depth of the chain of symbol
+# definitions, which is well founded because a symbol is defined before it is used (C08).
+
+from exactly_lib.type_val_deps.types.program.ddv.command import CommandDdv
+from exactly_lib.type_val_deps.types.program.ddv.argument import ArgumentsDdv
+from exactly_lib.type_val_deps.types.list_.list_ddv import ListDdv
+from exactly_lib.type_val_deps.sym_ref import symbol_lookup
+from pyvc import models as _models
+from contracts.common import is_opaque
+
+
+class DriverDdvI(Interface):
+    attrs = {'ident': Int, 'validators': ListOf(Any_)}
+
+
+class DriverSdvI(Interface):
+    attrs = {'ident': Int, 'references': Any_}
+    methods = {'resolve': Method(returns=Iface(DriverDdvI), ensures=lambda self, symbols, result: result.ident == self.ident)}
+
+
+class ListDdvI(Interface):
+    """a resolved argument list: `g_elements` (ghost) is the sequence of list elements it is the in-order
+    resolution of (ListSdv.resolve: every element resolved in place, in order -- see `list-resolution`)"""
+    target_class = ListDdv
+    attrs = {'g_elements': ELEMENTS}
+
+
+def _list_sdv_resolve(interp, args, kwargs):
+    """assumed contract of ListSdv.resolve(symbols): gives the resolution of ITS element sequence"""
+    self_ = args[0]
+    return new_opaque(interp, ListDdvI, 'ListSdv.resolve()', preset={'g_elements': self_._elements})
+
+
+M.model(ListSdv.__dict__['resolve'], _list_sdv_resolve)
+M.trust('ListSdv.resolve(symbols) is modelled by the ghost relation "the ListDdv is the in-order resolution of the '
+        'element sequence of the ListSdv" (its three-line loop `for e in elements: out.extend(e.resolve(symbols))` '
+        'is a flat-map, checked by the bounded stand-in `list-resolution`)')
+
+
+def _resolved_seq(interp, xs, name):
+    """[x.resolve(symbols) for x in xs] as a ghost sequence: element k keeps the ident of xs[k]"""
+    uid = interp.st.fresh_name(name)
+
+    def elem(interp2, idx_term):
+        src = _models.slist_elem(interp2, xs, idx_term)
+        return new_opaque(interp2, ResolvedI, uid + '[]', index=(idx_term,), preset={'ident': interp2.getattr(src, 'ident')})
+
+    return SList(xs.length, elem, uid)
+
+
+def _any_new_accumulated(interp, self, args, kwargs):
+    """INDUCTION HYPOTHESIS (a): denotes g(self) (+) additional"""
+    add = args[0]
+    q = new_opaque(interp, AnyProgramSdvI, self._pv_uid + '.new_accumulated()')
+    ga = interp.getattr
+    q._pv_attrs['g_driver'] = ga(self, 'g_driver')
+    q._pv_attrs['g_args'] = _seqs.concat(interp, ga(self, 'g_args'), add.arguments._arguments._elements)
+    q._pv_attrs['g_stdin'] = _seqs.concat(interp, ga(self, 'g_stdin'), add.stdin)
+    q._pv_attrs['g_transformations'] = _seqs.concat(interp, ga(self, 'g_transformations'), add.transformations)
+    return q
+
+
+def _any_resolve(interp, self, args, kwargs):
+    """INDUCTION HYPOTHESIS (b): a ProgramDdv that is the in-order resolution of g(self)"""
+    ga = interp.getattr
+    name = self._pv_uid + '.resolve()'
+    d = object.__new__(ProgramDdv)
+    cmd = object.__new__(CommandDdv)
+    drv = ga(self, 'g_driver')
+    cmd._command_driver = new_opaque(interp, DriverDdvI, name + '.driver', preset={'ident': ga(drv, 'ident')})
+    a = object.__new__(ArgumentsDdv)
+    a._arguments = new_opaque(interp, ListDdvI, name + '.arguments', preset={'g_elements': ga(self, 'g_args')})
+    a._validators = ()
+    cmd._arguments = a
+    cmd._validators = ()
+    d._command = cmd
+    d._stdin = _resolved_seq(interp, ga(self, 'g_stdin'), name + '.stdin')
+    d._transformations = _resolved_seq(interp, ga(self, 'g_transformations'), name + '.transformations')
+    d._validators = ()
+    return d
+
+
+class AnyProgramSdvI(Interface):
+    """the program a symbol refers to: any ProgramSdv for which (a) and (b) hold"""
+    target_class = ProgramSdv
+    attrs = {'g_driver': Iface(DriverSdvI), 'g_args': ELEMENTS, 'g_stdin': ELEMENTS, 'g_transformations': ELEMENTS,
+             'references': Any_}
+    methods = {'new_accumulated': Method(model=_any_new_accumulated), 'resolve': Method(model=_any_resolve)}
+
+
+LOOKUP = 'lookup_program'
+
+
+def _lookup_program(interp, args, kwargs):
+    p = new_opaque(interp, AnyProgramSdvI, 'referenced-program')
+    interp.st.emit(LOOKUP, args[1], p)
+    return p
+
+
+M.model(symbol_lookup.lookup_program, _lookup_program)
+M.trust('symbol_lookup.lookup_program(symbols, name) gives the ProgramSdv the symbol was defined as (C08); that '
+        'program satisfies the induction hypothesis (a), (b) -- proved here of both ProgramSdv classes')
+
+
+def referenced(trace):
+    ps = [e[2] for e in trace if e[0] == LOOKUP]
+    if len(ps) != 1:
+        raise ValueError('not exactly one program lookup')
+    return ps[0]
+
+
+COMMAND_SDV = Inst(CommandSdv, _driver=Iface(DriverSdvI), _arguments=ARGUMENTS_SDV)
+PROGRAM_FOR_COMMAND = Inst(ProgramSdvForCommand, _command=COMMAND_SDV, _accumulated_components=ACCUMULATED)
+PROGRAM_FOR_SYMBOL = Inst(ProgramSdvForSymbolReference, _symbol_name=Str, _accumulated_components=ACCUMULATED,
+                          _symbol_reference=Any_)
+
+
+def g_driver(p):
+    return p.g_driver if is_opaque(p) else p._command._driver
+
+
+def g_args(p):
+    if is_opaque(p):
+        return p.g_args
+    return list(arg_elements(p._command._arguments)) + list(arg_elements(p._accumulated_components.arguments))
+
+
+def g_stdin(p):
+    return p.g_stdin if is_opaque(p) else p._accumulated_components.stdin
+
+
+def g_transformations(p):
+    return p.g_transformations if is_opaque(p) else p._accumulated_components.transformations
+
+
+def denotes_accumulated(q, p, add, j):
+    """g(q) = g(p) (+) add"""
+    return same(g_driver(q), g_driver(p)) \
+        and is_concat(g_args(q), g_args(p), arg_elements(add.arguments), j) \
+        and is_concat(g_stdin(q), g_stdin(p), add.stdin, j) \
+        and is_concat(g_transformations(q), g_transformations(p), add.transformations, j)
+
+
+def resolves(d, driver, args, stdin, transformations, j):
+    """the ProgramDdv d is the element-wise, in-order resolution of (driver, args, stdin, transformations)"""
+    return type(d) is ProgramDdv and type(d._command) is CommandDdv and type(d._command._arguments) is ArgumentsDdv \
+        and d._command._command_driver.ident == driver.ident \
+        and is_same_seq(d._command._arguments._arguments.g_elements, args, j) \
+        and is_resolution_of(d._stdin, stdin, j) \
+        and is_resolution_of(d._transformations, transformations, j)
+
+
+P_PFC = 'exactly_lib.impls.types.program.sdvs.command_program_sdv'
+P_PFS = 'exactly_lib.impls.types.program.sdvs.program_symbol_sdv'
+
+M.contract(P_PFC + ':ProgramSdvForCommand.new_accumulated', inline=True,
+           params=dict(self=PROGRAM_FOR_COMMAND, additional=ACCUMULATED), ghosts=dict(j=Int),
+           ensures={'(a) denotes g(self) (+) additional: appended after everything accumulated so far':
+                    lambda self, additional, result, j:
+                    type(result) is ProgramSdvForCommand and denotes_accumulated(result, self, additional, j)},
+           raises_only=())
+
+M.contract(P_PFC + ':ProgramSdvForCommand.resolve', inline=True,
+           params=dict(self=PROGRAM_FOR_COMMAND, symbols=Any_), ghosts=dict(j=Int),
+           ensures={'(b) the in-order resolution of: driver, command arguments ++ accumulated arguments, stdin, '
+                    'transformations': lambda self, result, j:
+           resolves(result, g_driver(self), g_args(self), g_stdin(self), g_transformations(self), j)},
+           raises_only=())
+
+M.contract(P_PFS + ':ProgramSdvForSymbolReference.new_accumulated', inline=True,
+           params=dict(self=PROGRAM_FOR_SYMBOL, additional=ACCUMULATED), ghosts=dict(j=Int),
+           ensures={'(a) same symbol; own accumulated components first, then the additional ones':
+                    lambda self, additional, result, j:
+                    type(result) is ProgramSdvForSymbolReference and result._symbol_name == self._symbol_name
+                    and acc_is_concat(result._accumulated_components, self._accumulated_components, additional, j)},
+           raises_only=())
+
+
+def concat2(xs, ys):
+    return list(xs) + list(ys)
+
+
+M.contract(P_PFS + ':ProgramSdvForSymbolReference.resolve',
+           params=dict(self=PROGRAM_FOR_SYMBOL, symbols=Any_), ghosts=dict(j=Int),
+           returns=Any_,
+           ensures={
+               'the symbol that is looked up is the referenced one': lambda self, trace:
+               [e[1] for e in trace if e[0] == LOOKUP] == [self._symbol_name],
+               '(b) REFERENCED PROGRAM FIRST: the in-order resolution of g(referenced) (+) own accumulated components':
+                   lambda self, result, trace, j:
+                   resolves(result, referenced(trace).g_driver,
+                            concat2(referenced(trace).g_args, arg_elements(self._accumulated_components.arguments)),
+                            concat2(referenced(trace).g_stdin, self._accumulated_components.stdin),
+                            concat2(referenced(trace).g_transformations, self._accumulated_components.transformations),
+                            j),
+           }, raises_only=())
+
+M.contract(P_PFS + ':plain', inline=True,
+           params=dict(symbol_name=Str, arguments=ARGUMENTS_SDV),
+           ensures={'reference with only the given arguments accumulated': lambda symbol_name, arguments, result:
+           type(result) is ProgramSdvForSymbolReference and result._symbol_name == symbol_name
+           and result._accumulated_components.arguments is arguments
+           and is_empty_seq(result._accumulated_components.stdin)
+           and is_empty_seq(result._accumulated_components.transformations)},
+           raises_only=())
+
+
+# ------------------------------------------------------------------------------ bounded stand-in: ListSdv.resolve is a flat-map
+
+@M.bounded('list-resolution')
+def _list_resolution(ctx):
+    """ListSdv.resolve (a loop that extends a list by each element's resolution) is executed natively on EVERY
+    element sequence up to length 3 over 9 kinds of elements (constants: empty / with spaces / with quotes;
+    references to a string, a path, lists of length 0, 1, 2, a list containing a reference) and compared with the
+    independent definition  `flatten([strings denoted by e] for e in elements)`; and list_sdvs.concat is checked
+    to commute with it on every pair of sequences up to length 2.  NOT counted as proved."""
+    import itertools as it
+    import pathlib as pl
+    from exactly_lib.type_val_deps.types.string_ import string_sdvs
+    from exactly_lib.symbol.sdv_structure import SymbolReference, container_of_builtin
+    from exactly_lib.symbol.value_type import ValueType
+    from exactly_lib.util.symbol_table import SymbolTable
+    from exactly_lib.type_val_deps.types.path import path_sdvs
+    from exactly_lib.tcfs.path_relativity import RelOptionType
+    from exactly_lib.tcfs.hds import HomeDs
+    from exactly_lib.tcfs.sds import SandboxDs
+    from exactly_lib.tcfs.tcds import TestCaseDs
+    from exactly_lib.type_val_deps.sym_ref.w_str_rend_restrictions import reference_restrictions as rr
+
+    tcds = TestCaseDs(HomeDs(pl.Path('/hds/case'), pl.Path('/hds/act')), SandboxDs('/sds'))
+
+    def ref(n):
+        return SymbolReference(n, rr.is_any_type_w_str_rendering())
+
+    symbols = SymbolTable({
+        'S': container_of_builtin(ValueType.STRING, string_sdvs.str_constant('s val')),
+        'P': container_of_builtin(ValueType.PATH,
+                                  path_sdvs.of_rel_option_with_const_file_name(RelOptionType.REL_ACT, 'f.txt')),
+        'L0': container_of_builtin(ValueType.LIST, list_sdvs.from_str_constants([])),
+        'L1': container_of_builtin(ValueType.LIST, list_sdvs.from_str_constants([''])),
+        'L2': container_of_builtin(ValueType.LIST, list_sdvs.from_str_constants(['a', ' b  c '])),
+        'LR': container_of_builtin(ValueType.LIST, list_sdvs.from_elements(
+            [list_sdvs.str_element('x'), list_sdvs.symbol_element(ref('L2'))])),
+    })
+    # kind -> (constructor of a fresh element, the strings it denotes: written from the reference manual)
+    kinds = {
+        'empty': (lambda: list_sdvs.str_element(''), ['']),
+        'spaces': (lambda: list_sdvs.str_element(' two  words '), [' two  words ']),
+        'quotes': (lambda: list_sdvs.str_element('"q" \'r\' -opt'), ['"q" \'r\' -opt']),
+        '@S': (lambda: list_sdvs.symbol_element(ref('S')), ['s val']),
+        '@P': (lambda: list_sdvs.symbol_element(ref('P')), ['/sds/act/f.txt']),
+        '@L0': (lambda: list_sdvs.symbol_element(ref('L0')), []),
+        '@L1': (lambda: list_sdvs.symbol_element(ref('L1')), ['']),
+        '@L2': (lambda: list_sdvs.symbol_element(ref('L2')), ['a', ' b  c ']),
+        '@LR': (lambda: list_sdvs.symbol_element(ref('LR')), ['x', 'a', ' b  c ']),
+    }
+
+    def actual(list_sdv):
+        return list_sdv.resolve(symbols).value_of_any_dependency(tcds)
+
+    def expected(seq):
+        out = []
+        for k in seq:
+            out += kinds[k][1]
+        return out
+
+    def mk(seq):
+        return list_sdvs.from_elements([kinds[k][0]() for k in seq])
+
+    cases, failures = 0, []
+    seqs_ = [s for n in range(4) for s in it.product(sorted(kinds), repeat=n)]
+    for seq in seqs_:
+        cases += 1
+        got = actual(mk(seq))
+        if got != expected(seq):
+            failures.append({'input': list(seq), 'expected': expected(seq), 'actual': got})
+    short = [s for s in seqs_ if len(s) <= 2]
+    for a in short:
+        for b in short:
+            cases += 1
+            got = actual(list_sdvs.concat([mk(a), mk(b)]))
+            if got != expected(a) + expected(b):
+                failures.append({'input': [list(a), list(b)], 'expected': expected(a) + expected(b), 'actual': got})
+    ctx.bounded_result('ListSdv.resolve / list_sdvs.concat (flat-map of element resolutions, in order)',
+                       bound='element sequences of length <= 3 over 9 element kinds; concat of pairs of length <= 2',
+                       cases=cases, exhaustive=True, failures=failures,
+                       note='independent definition: flatten of the strings each element denotes')
